@@ -168,6 +168,11 @@ class Ctx(object):
             'violations': len(self.violations),
         }
         d = os.path.join(VERIF, 'evidence')
+        if os.path.abspath(build.REPO) != '/repo' or os.environ.get('VERIF_EVIDENCE_DIR'):
+            # a run against another tree (seeded change, self-mutant) must not replace the
+            # evidence of the repository under verification
+            d = os.environ.get('VERIF_EVIDENCE_DIR') or os.path.join(VERIF, '.scratch',
+                                                                     'evidence-other-tree')
         os.makedirs(d, exist_ok=True)
         tmp = os.path.join(d, '.%s.json.tmp%d' % (self.prop_id, os.getpid()))
         with open(tmp, 'w') as f:
